@@ -165,9 +165,14 @@ func (s *DeleteStmt) Validate(ctx *CheckCtx) error {
 }
 
 func (s *SelectStmt) ValidateFields(ctx *CheckCtx) error {
-	for _, f := range s.Fields {
+	for i, f := range s.Fields {
 		if err := s.validateField(f, ctx); err != nil {
 			return err
+		}
+		// The field names used in the expression are resolved now, so the
+		// return type may different from the one got while parsing
+		if i < len(s.FieldTypes) {
+			s.FieldTypes[i] = f.ReturnType()
 		}
 	}
 	return nil
